@@ -41,9 +41,19 @@ theorem cpp_reader_iff (p : Shape) (ops : List ROp) :
   simpa [encR] using this
 
 theorem py_reader_iff (p : Shape) (ops : List PROp) :
-    (runPRS (specRpy p) ⟨0, false⟩ ops).map encPR = runPR (pyR p) 0 ops := by
-  have := pyR_run p ops ⟨0, false⟩ (by intro h; simp at h)
+    (runPRS (specRpy p) ⟨0, false, false⟩ ops).map encPR = runPR (pyR p) (0, false) ops := by
+  have := pyR_run p ops ⟨0, false, false⟩ ⟨by intro h; simp at h, by intro _; rfl⟩
   simpa [encPR] using this
+
+/-- a stream whose iterable was dropped before its end is not finished: the reader stays at that step, so reading the next
+    step (or the same one again) and closing are all rejected -/
+theorem abandoned_stream_blocks_the_reader (p : Shape) (s : PRPos) (i : Nat) (s' : PRPos) (h : specRpy p s (.abandon i) = some s') :
+    (∀ j, specRpy p s' (.read j) = none) ∧ (∀ j, specRpy p s' (.exhaust j) = none) ∧ specRpy p s' .close = none := by
+  simp only [specRpy] at h
+  split at h
+  · cases h
+    refine ⟨fun j => ?_, fun j => ?_, ?_⟩ <;> simp [specRpy]
+  · cases h
 
 /-- Closing a C++ writer succeeds only when every step has been completed. -/
 theorem spec_close_cpp_writer (p : Shape) (s : WPos) : (specWcpp p s .close).isSome ↔ s.k = p.length := by
@@ -69,7 +79,9 @@ example : runW (pyW ex) 0 [.write 0, .write 1, .write 2, .write 3, .close] = som
 example : runW (pyW ex) 0 [.write 0, .write 2] = none := by decide          -- stream b never written
 example : runR (cppR ex) 0 [.read 0 true, .batch 1 false, .read 2 true, .read 2 false, .read 3 true, .close] = some 8 := by decide
 example : runR (cppR ex) 0 [.read 0 true, .read 1 true, .read 2 true] = none := by decide   -- end of b not observed
-example : runPR (pyR ex) 0 [.read 0, .read 1, .exhaust 1, .read 2, .exhaust 2, .read 3, .close] = some 8 := by decide
-example : runPR (pyR ex) 0 [.read 0, .read 1, .read 2] = none := by decide
+example : runPR (pyR ex) (0, false) [.read 0, .read 1, .exhaust 1, .read 2, .exhaust 2, .read 3, .close] = some (8, false) := by decide
+example : runPR (pyR ex) (0, false) [.read 0, .read 1, .read 2] = none := by decide
+example : runPR (pyR ex) (0, false) [.read 0, .read 1, .abandon 1, .read 2] = none := by decide
+example : runPR (pyR ex) (0, false) [.read 0, .read 1, .abandon 1] = some (3, true) := by decide
 
 end Yardl.C07
